@@ -247,8 +247,10 @@ SCENARIOS = dict(
                        'two', 'nofile', 'blob_two_obj', 'nuisance', 'nuisance3_net', 'half', 'g3_pool_s',
                        'wrap_pool_s']),
     C12=dict(quick=['gauss_t', 'gauss_d', 'wrap_net', 'blob_two_obj', 'empty_d:nshell'],
-             thorough=['gauss', 'gauss_t', 'gauss_d', 'b7_update', 'b1', 'two', 'half', 'wrap_net',
-                       'blob_float', 'blob_two_obj', 'gauss_net', 'empty', 'empty_d']),
+             thorough=['gauss', 'gauss_t', 'gauss_d', 'b7_update',
+                       'b1:toggle-resume/0/2+toggle-resume/1/2+nshell', 'two', 'half', 'wrap_net',
+                       'blob_float', 'blob_two_obj',
+                       'gauss_net:toggle-resume/0/2+toggle-resume/1/2+nshell', 'empty', 'empty_d']),
 )
 
 LEVEL = 'model_checking'
